@@ -70,7 +70,7 @@ def run_with_edits(pcode: str, edits: list[tuple[int, list]], total: int):
         while t < total:
             snap = run.tick()
             t += 1
-        return {"edits": info, "marks": marks_of(snap), "exec": Counter(e[1] for e in run.exec_log if e[0] == "init"),
+        return {"edits": info, "marks": marks_of(snap), "method_ends": run.method_ends, "exec": Counter(e[1] for e in run.exec_log if e[0] == "init"),
                 "raised": run.tick_errors, "status": snap["tags"].get("Method Status"),
                 "final_pcode": "\n".join(c for _, c in (info[-1]["new"] if info and info[-1]["res"] == "ok" else []))}
     finally:
@@ -117,7 +117,8 @@ def oracle(case) -> list[Failure]:
             if more:
                 fails.append(Failure("edit-reexecutes-started-line", case,
                                      f"marks set more often than in a run of the final method from the start: {more}"))
-            elif less:
+            elif less and a["method_ends"] > 0 and a["edits"][-1]["at"] < total - 10:
+                # only judged when the edited run has reached the end of the method (after the last edit)
                 fails.append(Failure("edit-loses-line", case,
                                      f"marks missing compared with a run of the final method from the start: {less}"))
     if not accepted_any and a["edits"] and all(e["res"] != "ok" for e in a["edits"]):
